@@ -401,6 +401,9 @@ type checker struct {
 	// reuseOK: the UNCACHED program survives Discard + reuse with the right rows on
 	// this executor (the baseline of the reuse histories)
 	reuseOK map[string]bool
+	// cold: call counts of a clean first run without files (local executor): which
+	// upstream user functions a complete computation of the program calls
+	cold map[string]map[string]int
 }
 
 type pendingViol struct {
@@ -413,7 +416,7 @@ func newChecker(r *ev.Run) *checker {
 	return &checker{r: r, valid: map[string]map[int][]byte{}, keyShard: map[int]map[string]int{}, logs: map[string][]string{},
 		memo: map[string]*result{}, waiting: map[string][]firstRun{},
 		pending: map[string]*pendingViol{}, nontriv: ev.NewCounter(), outcomes: ev.NewCounter(), states: ev.NewCounter(), mech: map[string]int{},
-		sampled: map[string]bool{}, reuseOK: map[string]bool{}}
+		sampled: map[string]bool{}, reuseOK: map[string]bool{}, cold: map[string]map[string]int{}}
 }
 
 func (c *checker) newJob(p prog, kind string, files map[int][]byte, faults []fault) *job {
@@ -458,6 +461,9 @@ func (c *checker) caseName(j *job) string {
 	}
 	if j.Reuse {
 		s += " [reuse history]"
+	}
+	if j.Gen != 0 {
+		s += fmt.Sprintf(" [the files are of generation 0, the input now is of generation %d]", j.Gen)
 	}
 	return s
 }
@@ -684,6 +690,15 @@ func (c *checker) judgeRun(j *job, which string, res *result, detail map[string]
 	noFault := which == "run2" || faultFree(j)
 	if obs.OK {
 		exp := expectedRows(p)
+		expWhat := "the uncached program yields"
+		if j.Gen != 0 {
+			// shards that must be read from their (generation 0) files are stale by
+			// design; everything else is computed now
+			gens := c.gensOf(j, obs.Before)
+			exp = expectedMixed(p, c.keyShard[p.Data], gens)
+			expWhat = fmt.Sprintf("with shards %v of the cached slice read from their files and the others computed (generations %v) the program yields", cachedShards(p, obs.Before), gens)
+			fc = "generation"
+		}
 		same := sameMultiset(obs.Rows, exp)
 		if same && p.ordered() {
 			same = sameSeq(obs.Rows, exp)
@@ -691,7 +706,31 @@ func (c *checker) judgeRun(j *job, which string, res *result, detail map[string]
 		if !same {
 			vs = append(vs, viol{
 				sig:    fmt.Sprintf("C13/%s/%s/wrong-rows/%s/%s", name, kind, which, fc),
-				what:   fmt.Sprintf("%s: %s succeeded with rows %v, the uncached program yields %v (files at start: %v)", c.caseName(j), which, obs.Rows, exp, obs.Before),
+				what:   fmt.Sprintf("%s: %s succeeded with rows %v, %s %v (files at start: %v)", c.caseName(j), which, obs.Rows, expWhat, exp, obs.Before),
+				detail: detail,
+			})
+		}
+	}
+	// Cache is all-or-nothing: "If all shards exist, then Cache shortcuts computation"
+	// (cache.go) -- with fewer files everything is computed: every upstream user
+	// function that a complete computation calls is called.
+	if obs.OK && noFault && p.Op == "cache" && len(obs.Before) < nShard {
+		if len(obs.Before) > 0 {
+			c.mech["all-or-nothing checks (Cache, some but not all files present)"]++
+		}
+		var missing []string
+		for k, n := range c.cold[name] {
+			fn, _, _ := strings.Cut(k, "/")
+			if n > 0 && (fn == "src" || fn == "map1" || fn == "comb" || fn == "map3") && obs.Counts[k] == 0 {
+				missing = append(missing, k)
+			}
+		}
+		sort.Strings(missing)
+		if len(missing) > 0 {
+			vs = append(vs, viol{
+				sig: fmt.Sprintf("C13/%s/%s/cache-not-all-or-nothing/%s/%s", name, kind, fnClass(missing), which),
+				what: fmt.Sprintf("%s: %s started with the files of shards %v only, so Cache must compute everything; upstream user functions that a complete computation calls were not called: %v (calls: %v)",
+					c.caseName(j), which, obs.Before, missing, obs.Counts),
 				detail: detail,
 			})
 		}
@@ -926,7 +965,23 @@ func (c *checker) reference(progs []prog) {
 			jobs = append(jobs, j)
 		}
 	}
+	for _, p := range progs {
+		// the model of generation 1 against the uncached program of generation 1
+		j := c.newJob(p, "local", nil, nil)
+		j.Plain, j.Gen = true, 1
+		jobs = append(jobs, j)
+		if !sameMultiset(expectedMixed(p, nil, make([]int, nShard)), expectedRows(p)) {
+			ev.Fatal("reference model inconsistent for %s", p.Name())
+		}
+	}
 	c.runJobs(jobs, func(j *job, res *result) {
+		if j.Gen != 0 {
+			exp := expectedMixed(j.Prog, nil, []int{j.Gen, j.Gen, j.Gen})
+			if res.Hang || !res.Run.OK || !sameMultiset(res.Run.Rows, exp) || j.Prog.ordered() && !sameSeq(res.Run.Rows, exp) {
+				ev.Fatal("reference model (generation %d) disagrees with the uncached program %s: got %+v, model %v", j.Gen, j.Prog.Name(), res.Run, exp)
+			}
+			return
+		}
 		if j.Reuse {
 			// baseline of the reuse histories: does the uncached program give the same
 			// rows again after Discard + reuse? (If not, that is not C13's business
@@ -974,6 +1029,7 @@ func (c *checker) reference(progs []prog) {
 			add(mid("cache", p.Data)) // ReadCache programs read what cache-mid wrote
 		case p.underHead():
 			add(mid(p.Op, p.Data)) // Head stops early; the cached slice is the one of "mid"
+			add(p)                 // (its own clean run: for the call counts only)
 		default:
 			add(p)
 		}
@@ -1016,6 +1072,7 @@ func (c *checker) reference(progs []prog) {
 			m[s] = fo.Bytes
 		}
 		c.valid[p.Name()] = m
+		c.cold[p.Name()] = res.Run.Counts
 		// the files of a clean run are judged like all others; without valid files
 		// nothing else can be enumerated
 		vs := c.judgeFirst(j, res)
@@ -1173,6 +1230,107 @@ func (c *checker) judgeReuse(j *job, res *result) []viol {
 		}
 	}
 	return vs
+}
+
+// gensOf: the generation of every shard of the cached slice in a run of job j that
+// starts with the (generation 0) files of `before`.
+func (c *checker) gensOf(j *job, before []int) []int {
+	gens := make([]int, nShard)
+	for s := range gens {
+		gens[s] = j.Gen
+	}
+	for _, s := range cachedShards(j.Prog, before) {
+		gens[s] = 0
+	}
+	return gens
+}
+
+// judgeGen judges a run of the generation phase: rows (judgeRun, generation-aware),
+// zero calls for cached shards, all-or-nothing, and the files: a shard that was read
+// from its file keeps it; a shard that was computed has a complete file of the NEW
+// generation (under Head: or still the old file, if Head stopped before its end).
+func (c *checker) judgeGen(j *job, res *result) []viol {
+	p, obs := j.Prog, res.Run
+	detail := map[string]interface{}{"case": c.caseName(j), "job": j, "run": obs, "attempts": res.Attempts, "files_after": slim(res.After)}
+	vs := c.judgeRun(j, "run1", res, detail)
+	if !obs.OK {
+		return vs
+	}
+	gens := c.gensOf(j, obs.Before)
+	before := map[int]bool{}
+	for _, s := range obs.Before {
+		before[s] = true
+	}
+	for s := 0; s < nShard; s++ {
+		fo, ok := res.After[s]
+		if !ok {
+			continue
+		}
+		allowed := []int{gens[s]}
+		if gens[s] != 0 && p.underHead() && before[s] {
+			allowed = append(allowed, 0)
+		}
+		good := false
+		for _, g := range allowed {
+			want := strs(cachedSliceRows(p, c.keyShard[p.Data], g)[s])
+			if fo.Complete && fo.Strict == "" && (p.postShuffle() && sameMultiset(fo.Rows, want) || !p.postShuffle() && sameSeq(fo.Rows, want)) {
+				good = true
+			}
+		}
+		if !good {
+			vs = append(vs, viol{
+				sig: fmt.Sprintf("C13/%s/%s/stale-or-incomplete-file-left/generation", p.Name(), j.Exec),
+				what: fmt.Sprintf("%s: files at start: %v, so shards %v are read from their files and the others computed; afterwards the file of shard %d decodes to %v (end of stream reached=%v err=%q strict: %s), expected the complete shard of generation %v: %v",
+					c.caseName(j), obs.Before, cachedShards(p, obs.Before), s, fo.Rows, fo.Complete, fo.Err, orOK(fo.Strict), allowed, strs(cachedSliceRows(p, c.keyShard[p.Data], allowed[0])[s])),
+				detail: detail,
+			})
+		}
+	}
+	return vs
+}
+
+// generationPhase: every subset of pre-existing files again, but the files hold the
+// (complete, valid) shards of generation 0 while the input of the run is of generation
+// 1, so that rows read from a file can be told from rows computed now. Cache with a
+// strict subset must deliver only new rows (and leave complete new files); Cache with
+// all files, CachePartial and ReadCache deliver the old rows of the shards they read
+// from files -- by design ("the user must guarantee cache consistency").
+func (c *checker) generationPhase(progs []prog) {
+	c.phase = "generations"
+	var jobs []*job
+	for _, mask := range subsets() {
+		for _, p := range progs {
+			if p.reads() && mask != 7 {
+				continue
+			}
+			for _, k := range executors {
+				j := c.newJob(p, k, c.filesFor(p, mask), nil)
+				j.Gen = 1
+				jobs = append(jobs, j)
+			}
+		}
+	}
+	c.runJobs(jobs, func(j *job, res *result) {
+		c.mech["runs:generations:"+j.Exec]++
+		if res.Hang {
+			c.r.Machinery(fmt.Sprintf("case %s: the run did not return within %v\n%s", c.caseName(j), hangAfter, tail(res.Dump, 3000)))
+			return
+		}
+		c.noteFlaky(j, res)
+		c.cases++
+		for _, v := range c.judgeGen(j, res) {
+			c.violate(j, v)
+		}
+		mixed := len(cachedShards(j.Prog, res.Run.Before))
+		if res.Run.OK && mixed > 0 && mixed < nShard {
+			c.mech["generation cases with old and new shards mixed (CachePartial)"]++
+		}
+		c.outcomes.Add(fmt.Sprintf("generation: run=%s shards-from-files=%d", outcome(res.Run), mixed))
+		if !c.sampled["gen"] && j.Exec == "local" && j.Prog.Name() == "cache-presh" && len(j.Files) == 2 {
+			c.sampled["gen"] = true
+			c.r.Sample(map[string]interface{}{"case": c.caseName(j), "run": res.Run, "files_after": slim(res.After)})
+		}
+	})
 }
 
 // reportCrashes: a process that dies while running a case, three times out of three,
@@ -1500,6 +1658,8 @@ func (c *checker) confirm() {
 				var vs []viol
 				if j.Reuse {
 					vs = c.judgeReuse(&j, res1)
+				} else if j.Gen != 0 {
+					vs = c.judgeGen(&j, res1)
 				} else {
 					vs = append(vs, c.judgeFirst(&j, res1)...)
 					j2 := c.newJob(j.Prog, j.Exec, bytesOf(res1.After), nil)
@@ -1539,6 +1699,7 @@ func (c *checker) run() {
 	c.reference(progs)
 	c.subsetsPhase(progs)
 	c.reusePhase(progs)
+	c.generationPhase(progs)
 
 	// Soft budgets. On an idle 16-core machine quick takes well under a minute and
 	// thorough a few minutes; the budgets leave room for a heavily loaded machine.
@@ -1651,6 +1812,7 @@ func (c *checker) run() {
 			"faults = every (quick: selected) label of the failure-free history of the same (program, executor, subset) x {fail, failpartial (writes), crash}, ordered pairs of them, " +
 			"and (no file fault) the source of shard s failing after r rows for every s, r; " +
 			"plus reuse histories in one session over complete files: run, scan, Result.Discard, Run(consumer, result), scan (cluster: one machine); " +
+			"plus every subset again with files of generation 0 under an input of generation 1 (values +1000), so that rows read from files and rows computed differ; " +
 			"non-trivial = every armed fault actually fired (vfs Fired; the failing source was actually asked), counted as distinct (program, executor, subset, label class, mode)",
 		"programs":                  names,
 		"executors":                 executors,
